@@ -1154,10 +1154,16 @@ def run_atomic(ctx: Ctx, cases, base=1000003):
 def run(ctx: Ctx, driver: Driver):
     run_cases(ctx, driver, cases_for(ctx))
     run_atomic(ctx, atomic_cases(ctx, ctx.rng))
+    # the request FIFO inside one loop iteration, against the Lean automaton ReqConn.Micro (theorems C08_micro_*)
+    from harness.c08_micro import run_micro
+    run_micro(ctx, driver)
 
 
 def replay(ctx: Ctx, driver: Driver, case):
     n = len(ctx.violations)
+    if case.get("stream") == "micro":
+        from harness.c08_micro import replay_micro
+        return replay_micro(ctx, driver, case)
     if case.get("stream") == "atomic":
         run_atomic(ctx, [(case["variant"], case["limit"], case["groups"], ("replay", case["seed"]))])
     else:
